@@ -106,16 +106,16 @@ def rewrite_triggers(t, mapping):
 def sql_injection_triggers(tname, like_pos, payload):
     """LIKE pattern built from the raw literal: a quote in the pattern operand."""
     keys = []
-    if like_pos and "'" in payload:
+    if like_pos is True and "'" in payload:
         keys.append("sql-like-pattern-quote-injection")
     return keys
 
 
 def sql_value_triggers(tname, like_pos, payload):
     keys = []
-    if like_pos and any(c in payload for c in "%_"):
+    if like_pos is True and any(c in payload for c in "%_"):
         keys.append("sql-like-pattern-wildcards-not-escaped")
-    if like_pos and "'" in payload:
+    if like_pos is True and "'" in payload:
         keys.append("sql-like-pattern-quote-injection")
     return keys
 
@@ -228,7 +228,7 @@ def relational_triggers(t, backend, flags, prob, root="post", detail=None):
             and str(prob).startswith("backend-raises") and "ambiguous column" in str(detail):
         keys.append("sqla-same-entity-via-two-paths")
     has_all = any(n[0] == "lam" and n[2] == "all" for n in T.walk(t))
-    rels = {"author", "country", "post"}
+    rels = {"author", "country", "post", "region"}
     to_one = any((n[0] == "attr" and n[1][0] == "id" and n[1][1] in rels) or
                  (n[0] == "attr" and n[1][0] == "attr" and n[1][2] in rels) or
                  (n[0] == "cmp" and n[2][0] == "id" and n[2][1] in rels)
